@@ -1114,6 +1114,46 @@ fn blank_after_header(src: &str, ast: &Ast, toks: &[Tk]) -> bool {
     false
 }
 
+fn is_block_construct(n: &Node) -> bool {
+    match n {
+        Node::For(_) | Node::While { .. } | Node::Until { .. } | Node::Loop { .. } | Node::Match { .. } | Node::Switch(_) | Node::Try(_) => true,
+        Node::If(i) => !i.inline,
+        _ => false,
+    }
+}
+
+/// Does the text of this expression end inside an indented block?
+fn ends_in_block(ast: &Ast, i: AstIndex, depth: u32) -> bool {
+    if depth > 200 {
+        return false;
+    }
+    let d = depth + 1;
+    let n = &ast.node(i).node;
+    if is_block_construct(n) {
+        return true;
+    }
+    match n {
+        Node::Block(b) => !b.is_empty(),
+        Node::Map { entries, braces: false } => !entries.is_empty(),
+        Node::Function(f) => ends_in_block(ast, f.body, d),
+        Node::Assign { expression, .. } | Node::MultiAssign { expression, .. } => ends_in_block(ast, *expression, d),
+        Node::Export(x) | Node::Throw(x) | Node::Yield(x) | Node::Return(Some(x)) | Node::Break(Some(x)) => ends_in_block(ast, *x, d),
+        Node::Debug { expression, .. } => ends_in_block(ast, *expression, d),
+        Node::BinaryOp { rhs, .. } => ends_in_block(ast, *rhs, d),
+        Node::UnaryOp { value, .. } => ends_in_block(ast, *value, d),
+        Node::If(x) => x.else_node.map(|e| ends_in_block(ast, e, d)).unwrap_or_else(|| ends_in_block(ast, x.then_node, d)),
+        Node::Chain((cn, next)) => match next {
+            Some(nx) => ends_in_block(ast, *nx, d),
+            None => match cn {
+                ChainNode::Call { args, with_parens: false } => args.last().is_some_and(|a| ends_in_block(ast, *a, d)),
+                ChainNode::Root(r) => ends_in_block(ast, *r, d),
+                _ => false,
+            },
+        },
+        _ => false,
+    }
+}
+
 fn static_shapes(src: &str, ast: &Ast, toks: &[Tk]) -> Vec<&'static str> {
     let mut v = vec![];
     for n in ast.nodes() {
@@ -1150,22 +1190,16 @@ fn static_shapes(src: &str, ast: &Ast, toks: &[Tk]) -> Vec<&'static str> {
     if blank_after_header(src, ast, toks) {
         v.push("blank_after_header");
     }
-    // F-C11-9: an indented-block expression as an operand of a unary / binary operator
+    // F-C11-9: an operator whose operand is / ends in an indented block (the parser reads a line that
+    // starts with an operator as a continuation of the block-ending expression in front of it)
     for n in ast.nodes() {
-        let ops: Vec<AstIndex> = match &n.node {
-            Node::BinaryOp { lhs, rhs, .. } => vec![*lhs, *rhs],
-            Node::UnaryOp { value, .. } => vec![*value],
-            _ => vec![],
+        let hit = match &n.node {
+            Node::BinaryOp { lhs, rhs, .. } => ends_in_block(ast, *lhs, 0) || is_block_construct(&ast.node(*rhs).node),
+            Node::UnaryOp { value, .. } => is_block_construct(&ast.node(*value).node),
+            _ => false,
         };
-        for o in ops {
-            let is_block = match &ast.node(o).node {
-                Node::For(_) | Node::While { .. } | Node::Until { .. } | Node::Loop { .. } | Node::Match { .. } | Node::Switch(_) | Node::Try(_) => true,
-                Node::If(i) => !i.inline,
-                _ => false,
-            };
-            if is_block {
-                v.push("block_expr_operand");
-            }
+        if hit {
+            v.push("block_expr_operand");
         }
     }
     // F-C11-10: a single-line comment whose next code token is a closing bracket / closing `|`, or that
